@@ -18,11 +18,14 @@ import resolvegen
 import resolvelib as rl
 
 ID = 'C06'
-LEAN_MODULES = ['Yaql.Props.C06']
+LEAN_MODULES = ['Yaql.Props.C06', 'Yaql.Props.C06Reg']
 P = 'Yaql.Props.C06.'
 REQUIRED_THEOREMS = [P + n for n in (
     'perm_invariant', 'spec_perm_invariant', 'old_order_dependent', 'old_tuple_order_dependent',
-    'visible_perm', 'stage_perm', 'choose_perm')]
+    'visible_perm', 'stage_perm', 'choose_perm')] + [
+    'Yaql.Props.C06Reg.' + n for n in (
+        'register_perm_invariant', 'family_register_perm', 'resolve_register_perm_invariant', 'exclusive_any',
+        'last_registration_wins_order_dependent')]
 TRUSTED = ['resolvelib.ListContext: the enumeration order of a layer is what its get_functions returns',
            'resolvelib.enc_fd / enc_arg (encoding of the real objects for the model)']
 ASSUMPTIONS = ['the enumeration order of one context is the same for the two passes of one choose_overload call '
